@@ -6,16 +6,9 @@
  * A longer copy is an assertion failure, never silently truncated. */
 #ifndef VP_MEM64_H
 #define VP_MEM64_H
-/* binary decomposition of the length: at most 7 block moves (64 | 32+16+8+4+2+1),
- * each block at the offset given by the higher length bits -- byte for byte the
- * same result as a forward byte copy of non-overlapping regions */
-struct vp_b64 { uint8_t b[64]; };
-struct vp_b32 { uint8_t b[32]; };
-struct vp_b16 { uint8_t b[16]; };
-struct vp_b8 { uint8_t b[8]; };
-struct vp_b4 { uint8_t b[4]; };
-struct vp_b2 { uint8_t b[2]; };
-#define VP_BLK(T, off) (*(struct T *) (d + (off)) = *(const struct T *) (s + (off)))
+#define VP_CP1(i) if ((i) < n) { d[(i)] = s[(i)]; }
+#define VP_CP4(i) VP_CP1(i) VP_CP1((i) + 1) VP_CP1((i) + 2) VP_CP1((i) + 3)
+#define VP_CP16(i) VP_CP4(i) VP_CP4((i) + 4) VP_CP4((i) + 8) VP_CP4((i) + 12)
 static inline void *
 vp_memcpy64(void *dst, const void *src, size_t n)
 {
@@ -35,16 +28,7 @@ vp_memcpy64(void *dst, const void *src, size_t n)
 #pragma CPROVER check disable "pointer-overflow"
 #pragma CPROVER check disable "pointer-primitive"
 	if (n <= 64) {
-		if (n == 64) {
-			VP_BLK(vp_b64, 0);
-		} else {
-			if (n & 32) { VP_BLK(vp_b32, 0); }
-			if (n & 16) { VP_BLK(vp_b16, n & 32); }
-			if (n & 8) { VP_BLK(vp_b8, n & 48); }
-			if (n & 4) { VP_BLK(vp_b4, n & 56); }
-			if (n & 2) { VP_BLK(vp_b2, n & 60); }
-			if (n & 1) { d[n & 62] = s[n & 62]; }
-		}
+		VP_CP16(0) VP_CP16(16) VP_CP16(32) VP_CP16(48)
 	}
 #pragma CPROVER check pop
 	return (dst);
